@@ -60,10 +60,14 @@ Inductive cexpr :=
 (* combinators the generated code is written with: building an expression can raise (pa.array) *)
 Definition r_and (a b : res cexpr) : res cexpr := bind a (fun x => bind b (fun y => Ok (And x y))).
 Definition r_not (a : res cexpr) : res cexpr := bind a (fun x => Ok (Not x)).
-(* pc.is_in(field, value_set=pa.array(values)): PA says whether pa.array accepts the Python list
-   (it refuses heterogeneous lists such as [1, "a"], [1, True], ints beyond 64 bits) *)
-Definition mk_is_in (PA : list value -> bool) (c : Z) (values : list value) : res cexpr :=
-  if PA values then Ok (IsIn c values) else Err EBuild.
+(* PA says whether pyarrow accepts a Python literal when the expression is BUILT:
+     pa.array(values) for an in / not_in value set (it refuses heterogeneous lists such as [1, "a"],
+     [1, True], and ints beyond 64 bits);  pa.scalar(expr.value) for `field <op> expr.value` (it refuses
+     ints beyond 64 bits; a list literal is accepted here and refused at evaluation). *)
+Definition mk_is_in (PA : parg -> bool) (c : Z) (values : list value) : res cexpr :=
+  if PA (AList values) then Ok (IsIn c values) else Err EBuild.
+Definition mk_cmp (PA : parg -> bool) (op : cmpop) (c : Z) (lit : parg) : res cexpr :=
+  if PA lit then Ok (Cmp op c lit) else Err EBuild.
 
 Definition is_empty_list {A} (l : list A) : bool := match l with [] => true | _ => false end.
 (* [v for v in xs if v is not None] *)
